@@ -142,7 +142,8 @@ struct LUCase {
         for (int it = 0; it < 10; ++it) {
             fill_family(A.data(), N, FAM, 10, g);
             Framed<Tensor<T, N, N>> L, U; Tensor<size_t, N> Pv; Tensor<T, N, N> Pm; paint(L->data(), N * N); paint(U->data(), N * N);
-            for (size_t i = 0; i < N; ++i) Pv.data()[i] = i; for (size_t i = 0; i < N * N; ++i) Pm.data()[i] = T(0);
+            // the permutation is a pure output: hand it over painted, the library has to write all of it
+            for (size_t i = 0; i < N; ++i) Pv.data()[i] = 0xC3C3C3C3u + i; paint(Pm.data(), N * N);
             VP_LIB(call(A, *L, *U, Pv, Pm, If<LUPiv<LT>::value>(), PENC));
             std::vector<size_t> p(N); for (size_t i = 0; i < N; ++i) p[i] = i;
             bool ok = true;
@@ -161,7 +162,7 @@ struct LUCase {
                 }
             }
             // expression argument
-            if (it == 0) { Tensor<T, N, N> L2, U2; Tensor<size_t, N> Pv2; Tensor<T, N, N> Pm2; for (size_t i = 0; i < N; ++i) Pv2.data()[i] = i; for (size_t i = 0; i < N * N; ++i) Pm2.data()[i] = T(0);
+            if (it < 3) { Tensor<T, N, N> L2, U2; Tensor<size_t, N> Pv2; Tensor<T, N, N> Pm2; for (size_t i = 0; i < N; ++i) Pv2.data()[i] = 0xC3C3C3C3u + i; paint(Pm2.data(), N * N); paint(L2.data(), N * N); paint(U2.data(), N * N);
                 VP_LIB(callx(A, L2, U2, Pv2, Pm2, If<LUPiv<LT>::value>(), PENC));
                 std::vector<size_t> p2(N); for (size_t i = 0; i < N; ++i) p2[i] = i; bool ok2 = true;
                 if (LUPiv<LT>::value) ok2 = PENC == 1 ? perm_from_vector<T, N>(c, Pv2, p2) : perm_from_matrix<T, N>(c, Pm2, p2);
@@ -239,6 +240,8 @@ template <class T, size_t N, QRCompType QT, int PENC>
 struct QRCase {
     static void call(const Tensor<T, N, N>& A, Tensor<T, N, N>& Q, Tensor<T, N, N>& R, Tensor<size_t, N>&, Tensor<T, N, N>&, If<false>) { qr<QT>(A, Q, R); }
     static void call(const Tensor<T, N, N>& A, Tensor<T, N, N>& Q, Tensor<T, N, N>& R, Tensor<size_t, N>& Pv, Tensor<T, N, N>& Pm, If<true>) { if (PENC == 1) qr<QT>(A, Q, R, Pv); else qr<QT>(A, Q, R, Pm); }
+    static void callx(const Tensor<T, N, N>& A, Tensor<T, N, N>& Q, Tensor<T, N, N>& R, Tensor<size_t, N>&, Tensor<T, N, N>&, If<false>) { qr<QT>(A * T(1), Q, R); }
+    static void callx(const Tensor<T, N, N>& A, Tensor<T, N, N>& Q, Tensor<T, N, N>& R, Tensor<size_t, N>& Pv, Tensor<T, N, N>& Pm, If<true>) { if (PENC == 1) qr<QT>(A * T(1), Q, R, Pv); else qr<QT>(A * T(1), Q, R, Pm); }
     static void run(Ctx& c) {
         Rng g = c.rng(); VP_OPERAND((Tensor<T, N, N>), A);
         constexpr bool piv = QT == QRCompType::MGSRPiv;
@@ -246,8 +249,8 @@ struct QRCase {
             LD kappa = it % 4 == 0 ? 1 : (it % 4 == 1 ? 10 : (it % 4 == 2 ? 100 : 1000));
             la::fill_cond(A.data(), N, kappa, g);
             Framed<Tensor<T, N, N>> Q, R; Tensor<size_t, N> Pv; Tensor<T, N, N> Pm; paint(Q->data(), N * N); paint(R->data(), N * N);
-            for (size_t i = 0; i < N; ++i) Pv.data()[i] = i; for (size_t i = 0; i < N * N; ++i) Pm.data()[i] = T(0);
-            VP_LIB(call(A, *Q, *R, Pv, Pm, If<piv>()));
+            for (size_t i = 0; i < N; ++i) Pv.data()[i] = 0xC3C3C3C3u + i; paint(Pm.data(), N * N);     // pure outputs: painted
+            if (it % 3 == 2) { VP_LIB(callx(A, *Q, *R, Pv, Pm, If<piv>())); } else { VP_LIB(call(A, *Q, *R, Pv, Pm, If<piv>())); }      // every third draw hands the matrix over as an expression
             std::vector<size_t> p(N); for (size_t i = 0; i < N; ++i) p[i] = i; bool ok = true;
             if (piv) ok = PENC == 1 ? perm_from_vector<T, N>(c, Pv, p) : perm_from_matrix<T, N>(c, Pm, p);
             for (size_t i = 0; i < N; ++i) for (size_t j = 0; j < i; ++j) { ++c.checks; if (R->data()[i * N + j] != T(0)) c.fail("R-not-upper-triangular", "R has a non-zero below the diagonal"); }
